@@ -3,7 +3,7 @@
     [vm_compute] on a concrete witness) and followed by [Print Assumptions].
     Models: Model19.v (gates, entity expansion), Uri19.v (URI resolution); Spec: Spec19.v, Uri19.rfc_resolve. *)
 From XV Require Import Base.XDefs C19.Uri19 C19.Spec19 C19.Model19 C19.Proofs19a C19.Proofs19g C19.Proofs19b
-  C19.Proofs19c C19.Proofs19d C19.ProofsUri19 Gen.GenGates C19.Gates19.
+  C19.Proofs19c C19.Proofs19d C19.Proofs19e C19.ProofsUri19 Gen.GenGates C19.Gates19.
 Local Open Scope N_scope.
 
 (** ** T19_no_fetch (full on the model): for every configuration, resolver, file system and document, every
@@ -220,6 +220,32 @@ Theorem T19_resolve_rfc_xmluri_partial :
       implb (plain_rel r) (match xmluri_resolve base r with Some t => str_eqb t (rfc_resolve base r) | None => false end))
     (refs_over alpha_plain 5)) bases_uri = true.
 Proof. exact xmluri_rfc_agree_partial. Qed.
+(** ** T19_unescape_once (full): the unescape loop of XMLURL::makeNewStream (find '%', check two hex digits, write
+    the value, shift, resume the search AFTER the decoded character) equals the single-pass specification
+    [pct_decode] on every input: every %hh is decoded exactly once, a malformed escape is an error in both, and
+    what was already decoded never influences what happens to the rest. *)
+Theorem T19_unescape_once : forall s, unescape_once s = pct_decode s.
+Proof. exact unescape_once_spec. Qed.
+Print Assumptions T19_unescape_once.
+Theorem T19_unescape_independent : forall f d1 d2 rest, (length rest < f)%nat ->
+  option_map (fun x => skipn (length d1) x) (unesc_loop f d1 rest) =
+  option_map (fun x => skipn (length d2) x) (unesc_loop f d2 rest).
+Proof. exact unescape_independent. Qed.
+Print Assumptions T19_unescape_independent.
+(** the variant that restarts the search ON the decoded character is refuted: "ent/a%2541.ent" must give
+    "ent/a%41.ent", the variant gives "ent/aA.ent"; "%20", "%2B" and text without escapes do not tell the
+    two apart *)
+Definition pctA : str := [101;110;116;47;97;37;50;53;52;49;46;101;110;116].       (* ent/a%2541.ent *)
+Example T19_unescape_restart_refuted :
+  unescape_once pctA = Some [101;110;116;47;97;37;52;49;46;101;110;116] /\               (* ent/a%41.ent *)
+  unescape_restart pctA = Some [101;110;116;47;97;65;46;101;110;116] /\                  (* ent/aA.ent *)
+  unescape_restart pctA <> pct_decode pctA /\
+  unescape_restart [97;37;50;48;98] = unescape_once [97;37;50;48;98] /\                   (* a%20b *)
+  unescape_restart [97;37;50;66;98] = unescape_once [97;37;50;66;98] /\                   (* a%2Bb *)
+  unescape_once [97;37;50;53;98] = Some [97;37;98] /\                                     (* a%25b -> a%b *)
+  unescape_once [97;37;52] = None /\ unescape_once [37;52;71;49] = None.                  (* a%4 , %4G1 *)
+Proof. vm_compute. repeat split; try reflexivity; try (intro H; inversion H). Qed.
+
 (** deviation of the real code (known finding C19-F2), one witness per resolver *)
 Theorem T19_resolve_rfc_refuted :
   localfile_resolve baseF [97; 47; 47; 46; 46; 47; 98] <> rfc_resolve baseF [97; 47; 47; 46; 46; 47; 98] /\
